@@ -73,6 +73,39 @@ var registry = map[string]map[string]string{
 	SVC:   {"sk1": "rsa3"},
 }
 
+// registrations of the "reg" dimension (part verify): the default table, A's key jk2 no
+// longer on file, and B holding a copy of A's jk2 key under its own kid bk2.
+func registrationTable(variant string) map[string]map[string]string {
+	out := map[string]map[string]string{}
+	for id, ks := range registry {
+		out[id] = map[string]string{}
+		for kid, name := range ks {
+			out[id][kid] = name
+		}
+	}
+	switch variant {
+	case "A-without-jk2":
+		delete(out[A], "jk2")
+	case "B-shares-A.k2":
+		out[B]["bk2"] = "p256b"
+	}
+	return out
+}
+
+// applyRegistration rewrites the key tables of cfg to reg.
+func applyRegistration(cfg *refstore.Config, reg map[string]map[string]string) {
+	for id, ks := range reg {
+		cl := cfg.Clients[id]
+		if cl == nil {
+			cl = cfg.ServiceUsers[id]
+		}
+		cl.Keys = map[string]*jose.JSONWebKey{}
+		for kid, name := range ks {
+			cl.Keys[kid] = rig.PubJWK(keys.Get(name), kid)
+		}
+	}
+}
+
 // newConfig is rig.DefaultConfig() plus: more keys and a second redirect URI for "jwt",
 // and a second private_key_jwt client "jwtb".
 func newConfig() *refstore.Config {
@@ -307,9 +340,11 @@ func verifies(p parsedJWS, pub crypto.PublicKey) bool {
 
 // signedFor decides the signature clause for issuer id: any = some key the storage holds
 // for id verifies the token; named = the key the header's kid names does.
-func signedFor(tok, id string) (anyKey, named bool) {
+func signedFor(tok, id string) (anyKey, named bool) { return signedForReg(registry, tok, id) }
+
+func signedForReg(reg map[string]map[string]string, tok, id string) (anyKey, named bool) {
 	p := parseCompact(tok)
-	for kid, name := range registry[id] {
+	for kid, name := range reg[id] {
 		if verifies(p, keys.Get(name).Pub) {
 			anyKey = true
 			if kid == p.kid {
@@ -422,6 +457,7 @@ func (a assertionT) payload(t0 time.Time, vIssuer string) []byte {
 type vcfg struct {
 	issuer         string
 	maxAge, offset time.Duration
+	reg            map[string]map[string]string // registration table in force (nil: registry)
 }
 
 // judge is the reference predicate for one assertion presented at instant now to a
@@ -435,7 +471,11 @@ func judge(a assertionT, tok string, t0, now time.Time, cfg vcfg) (want, string)
 	band := cfg.offset + time.Second
 	soft := ""
 	// signature clause
-	anyKey, named := signedFor(tok, a.iss)
+	reg := cfg.reg
+	if reg == nil {
+		reg = registry
+	}
+	anyKey, named := signedForReg(reg, tok, a.iss)
 	if !anyKey {
 		return mustReject, "not-signed-by-a-key-held-for-iss"
 	}
@@ -512,7 +552,10 @@ func errClass(err error) string {
 
 // issKeySet is the caller-supplied oidc.KeySet of the NewJWTProfileVerifierKeySet variant:
 // an ordinary integrator's key set that resolves (iss, kid) in the same registration table.
-type issKeySet struct{ calls *[]string }
+type issKeySet struct {
+	calls *[]string
+	reg   map[string]map[string]string
+}
 
 func (k issKeySet) VerifySignature(ctx context.Context, jws *jose.JSONWebSignature) ([]byte, error) {
 	var c struct {
@@ -528,7 +571,11 @@ func (k issKeySet) VerifySignature(ctx context.Context, jws *jose.JSONWebSignatu
 	if k.calls != nil {
 		*k.calls = append(*k.calls, kid+"|"+c.Iss)
 	}
-	name, ok := registry[c.Iss][kid]
+	reg := k.reg
+	if reg == nil {
+		reg = registry
+	}
+	name, ok := reg[c.Iss][kid]
 	if !ok {
 		return nil, errors.New("no such key")
 	}
@@ -545,9 +592,15 @@ func TestCheck(t *testing.T) {
 		"clock band: |offset|+1s around each time boundary is judged Either (DESIGN §1.6)",
 		"a signature by a key of iss under a kid that does not name it, an algorithm outside RS256/ES256/PS256, an absent iat without max age: Either",
 		"request objects: absent client_id / response_type member in the object: Either; scope is not required to be overridden when the plain scope lacks openid")
-	runVerify(t, c)
-	runEndpoint(t, c)
-	runReqObj(t, c)
-	runInterop(t, c)
+	walls := map[string]float64{}
+	for _, p := range []struct {
+		name string
+		run  func(*testing.T, *engine.Check)
+	}{{"verify", runVerify}, {"endpoint", runEndpoint}, {"reqobj", runReqObj}, {"interop", runInterop}} {
+		t0 := time.Now()
+		p.run(t, c)
+		walls[p.name] = time.Since(t0).Seconds()
+	}
+	c.Extra("part_wall_s", walls)
 	c.Finish()
 }
